@@ -22,6 +22,7 @@ type Exec struct {
 	baseCounter int
 	curCall     *ssa.CallCommon // the call being executed (dynamic-target resolution)
 	recInfos    map[*ssa.Function]*recInfo
+	havocDepth  int
 	entry       *State // snapshot of the unit's entry state (for old())
 	depth       int
 	safety      bool // generate no-panic obligations
